@@ -23,7 +23,7 @@ func init() {
 			{"LAY-SHAPE", 8, ruleLayShape},
 			{"LAY-TARGET", 12, ruleLayTarget},
 			{"LAY-REWRITE", 27, ruleLayRewrite},
-			{"PAR-FORCLAUSE", 3, ruleParForClause},
+			{"PAR-FORCLAUSE", 1, ruleParForClause},
 			{"HND-RANGEINT", 1, ruleHndRangeInt},
 			{"PAR-RETURNLINE", 1, ruleParReturnLine},
 			{"PAR-IFCHAIN", 1, ruleParIfChain},
@@ -754,34 +754,48 @@ func ruleParForClause(c *Ctx, r *R) {
 		return
 	}
 	n, bare := 0, 0
-	ast.Inspect(fd.Body, func(m ast.Node) bool {
-		call, ok := m.(*ast.CallExpr)
-		if !ok || c.CalleeName(call) != "parser.Expression" {
-			return true
-		}
-		guarded, rangeOperand := false, false
-		for p := c.Parent(call); p != nil && p != ast.Node(fd.Body); p = c.Parent(p) {
-			if ifs, ok := p.(*ast.IfStmt); ok {
-				if strings.Contains(nosp(c.Src(ifs.Cond)), "p.Token.Symbol") {
-					guarded = true
-				}
-				if strings.Contains(c.Src(ifs.Cond), `"range"`) {
-					rangeOperand = true // the operand of range is not optional
+	for _, hfd := range c.withHelpers(fd) {
+		hfd := hfd
+		ast.Inspect(hfd.Body, func(m ast.Node) bool {
+			call, ok := m.(*ast.CallExpr)
+			if !ok || c.CalleeName(call) != "parser.Expression" {
+				return true
+			}
+			guarded, rangeOperand := false, false
+			// a preceding terminating `if p.Token.Symbol == end { return ~ }` guards what follows it
+			if blk, ok := c.Parent(c.Parent(call)).(*ast.BlockStmt); ok {
+				for _, st := range blk.List {
+					if st.Pos() >= call.Pos() {
+						break
+					}
+					if ifs, ok := st.(*ast.IfStmt); ok && terminating(ifs.Body) && strings.Contains(nosp(c.Src(ifs.Cond)), "p.Token.Symbol") {
+						guarded = true
+					}
 				}
 			}
-		}
-		if rangeOperand {
+			for p := c.Parent(call); p != nil && p != ast.Node(hfd.Body); p = c.Parent(p) {
+				if ifs, ok := p.(*ast.IfStmt); ok {
+					if strings.Contains(nosp(c.Src(ifs.Cond)), "p.Token.Symbol") {
+						guarded = true
+					}
+					if strings.Contains(c.Src(ifs.Cond), `"range"`) {
+						rangeOperand = true // the operand of range is not optional
+					}
+				}
+			}
+			if rangeOperand {
+				return true
+			}
+			n++
+			if !guarded {
+				bare++
+				r.fail(fmt.Sprintf("clause #%d", n), c.Pos(call), "forNud parses a for clause without first looking whether it is there: `for ; i < 3; i++ {`, `for i := 0; i < 5; {` or `for ; ; {` (valid Go) fail with a nil-pointer parse error or read the body as a composite literal")
+			} else {
+				r.ok(fmt.Sprintf("clause #%d", n), "parsed only when the next token does not end the clause")
+			}
 			return true
-		}
-		n++
-		if !guarded {
-			bare++
-			r.fail(fmt.Sprintf("clause #%d", n), c.Pos(call), "forNud parses a for clause without first looking whether it is there: `for ; i < 3; i++ {`, `for i := 0; i < 5; {` or `for ; ; {` (valid Go) fail with a nil-pointer parse error or read the body as a composite literal")
-		} else {
-			r.ok(fmt.Sprintf("clause #%d", n), "parsed only when the next token does not end the clause")
-		}
-		return true
-	})
+		})
+	}
 	if n == 0 {
 		r.undecided("forNud", c.Pos(fd), "no clause expression found")
 	}
